@@ -30,11 +30,17 @@ int64_t evaluate_arithmetic_binary(const std::string &op, int64_t left,
             error_msg(DebugMsgId::ZERO_DIVISION_ERROR);
             throw std::runtime_error("Division by zero");
         }
+        if (left == INT64_MIN && right == -1) {
+            throw std::runtime_error("Arithmetic overflow in division");
+        }
         return left / right;
     } else if (op == "%") {
         if (right == 0) {
             error_msg(DebugMsgId::ZERO_DIVISION_ERROR);
             throw std::runtime_error("Modulo by zero");
+        }
+        if (right == -1) {
+            return 0;
         }
         return left % right;
     }
